@@ -34,6 +34,8 @@ func Scenarios(prop string) []gx.Sc {
 			extra = []gx.Sc{
 				{Name: "cons?n=3&cuts=2&fmts=5&slow=1&buf=0&icpt=3&icptpanic=2&faults=" + faults + "&gates=" + gates, Q: 2, T: 3},
 				{Name: "cons?n=3&cuts=1&fmts=3&ver=0.10.2.0&buf=1&icpt=3&icptpanic=3&faults=" + faults + "&gates=" + gates, Q: 1, T: 2},
+				// a nil entry in the middle of the chain
+				{Name: "cons?n=3&cuts=2&fmts=5&buf=1&icpt=3&icptnil=2&faults=" + faults + "&gates=" + gates, Q: 1, T: 2},
 			}
 		}
 		return append(extra, []gx.Sc{
